@@ -188,4 +188,23 @@ theorem parse_render_general (c : Cls) (hc : ClsOK c) (T : Table) (hop : OpWordF
   rw [renderStr_detok]
   exact parse_spelled c hc T hop hkw _ segs hsegs _ hcov e hparse
 
+/-- the same for any accepted table, under the proviso stated on the rendered text: no occurrence of a stored name
+    in it reaches across the boundary between two rendered tokens -/
+theorem parse_render_within (c : Cls) (hc : ClsOK c) (T : Table) (hkw : KwOwned c T)
+    (e : Expr Atom) (hwf : BP.WFE e) (ha : ∀ a ∈ literals e, AtomOKG c T a)
+    (hwithin : ∀ segs, SegsFor c T (BP.toksOf (fun _ => false) e) segs → segPieces segs = wordPieces c (renderStr e) →
+      ∀ k ∈ (buildTrie c T).iter c (renderStr e) true, k.val.isSome = true →
+        ∃ sg ∈ segs, ∃ p ∈ sg.1, ∃ p' ∈ sg.1, k.s = p.start ∧ k.e = p'.stop) :
+    parseFull c T false false false (renderStr e) = .ok e := by
+  have hparse := BP.parse_render (fun _ => false) e hwf
+  have hn := noSymSym_of_pairs _ (BP.parse_pairs _ e hparse)
+  have hlits := BP.parse_literals _ e hparse
+  have ha' : ∀ a, BP.Tok.sym a ∈ BP.toksOf (fun _ => false) e → AtomOKG c T a := by
+    intro a h; exact ha a (by rw [hlits]; exact sym_mem_tokLits _ a h)
+  have hwords := words_detokG c hc _ hn
+  rw [← unfoldedWords_splitW] at hwords
+  obtain ⟨segs, hsegs, hcov⟩ := segsFor_render c hc T _ (wordPieces c (BP.detok Atom.render (BP.toksOf (fun _ => false) e))) ha' hwords
+  rw [← renderStr_detok] at hcov
+  exact parse_spelled_within c hc T hkw _ segs hsegs _ hcov (hwithin segs hsegs hcov) e hparse
+
 end LE
